@@ -672,3 +672,63 @@ pub fn tear_unit(seed: u64, ctx: &mut Ctx, ctl: &mut UnitCtl) {
         ctl.after_case(ctx, || mk(a, true));
     }
 }
+
+
+// ---------------------------------------------------------------------------------------------
+// A crash inside one very large record (tens of MiB: a writer may treat such records specially)
+// while the index is complete. The workload is procedural so that the scenario stays small.
+
+#[derive(Clone, Debug, Serialize, Deserialize)]
+pub struct CrashBigScn {
+    /// points of the single part of the large polyline (the second of two shapes, then finalize)
+    pub npts: u32,
+    /// the .shp keeps its events up to the one holding this fraction (per mille) of the large record ...
+    pub at_permille: u32,
+    /// ... and this many bytes of that event
+    pub cut: u32,
+    pub rbuf: u32,
+}
+
+pub fn execute_big(scn: &CrashBigScn, ctx: &mut Ctx) {
+    if scn.npts < 2 || scn.npts > 6_000_000 || scn.at_permille > 1000 {
+        ctx.fail("HARNESS", "invalid-scenario", "crash-big", "bad parameters".to_string());
+        return;
+    }
+    let w = WProg { shapes: vec![grid_spec(3, 1, 2, 3), grid_spec(3, 1, scn.npts as usize, 11)], others: vec![], calls: vec![WCall::W(0), WCall::W(1), WCall::Fin], ending: Ending::Drop, with_shx: true, stack: StackCfg::Buf(1 << 16) };
+    let Some(p) = prepare(&w, &Plan::default()) else {
+        ctx.fail("HARNESS", "invalid-scenario", "workload", "the large workload does not run cleanly".to_string());
+        return;
+    };
+    let wb = p.world.borrow();
+    let shp_evs = wb.events_of(SHP);
+    let shx_evs = wb.events_of(SHX);
+    // the large record starts behind the header and the first record
+    let rec1_start = 100 + 8 + 44 + 4 + 2 * 16;
+    let rec1_len = 8 + 44 + 4 + 16 * scn.npts as u64;
+    let target = rec1_start as u64 + rec1_len * scn.at_permille as u64 / 1000;
+    // the first write event that reaches the target position in the golden run
+    let Some(k) = shp_evs.iter().position(|&i| wb.log[i].kind == OpKind::Write && wb.log[i].pos + wb.log[i].moved as u64 > target && wb.log[i].pos >= 100) else {
+        ctx.fail("HARNESS", "invalid-scenario", "crash-big", "no write event at that position".to_string());
+        return;
+    };
+    let shp = crash_image(&wb, &shp_evs, k, scn.cut as usize);
+    let shx = crash_image(&wb, &shx_evs, shx_evs.len(), 0);
+    drop(wb);
+    ctx.stats.reach("crash-inside-a-large-record");
+    judge(ctx, &p, &shp, k, &shx, scn.rbuf, true, true);
+    ctx.stats.distinct.insert(crate::prng::fnv_str(&format!("big|{}|{}|{}", scn.npts, scn.at_permille, scn.cut)));
+}
+
+/// unit 0: a 64 MiB record (4.2 M points), crashed near its start, in its middle and near its end.
+pub fn big_unit(unit: u64, ctx: &mut Ctx, ctl: &mut UnitCtl) {
+    let cases: Vec<(u32, u32, u32)> = if unit == 0 { vec![(4_195_304, 1, 3), (4_195_304, 500, 40_000), (4_195_304, 999, 11)] } else { vec![(4_195_304, 250, 1), (2_100_000, 500, 3), (4_200_000, 750, 65_535), (5_000_000, 10, 8)] };
+    for (npts, at_permille, cut) in cases {
+        let scn = CrashBigScn { npts, at_permille, cut, rbuf: 0 };
+        if !ctl.before_case(|| Scenario::CrashBig(scn.clone())) {
+            continue;
+        }
+        ctx.stats.evaluations += 1;
+        execute_big(&scn, ctx);
+        ctl.after_case(ctx, || Scenario::CrashBig(scn.clone()));
+    }
+}
